@@ -2,6 +2,7 @@ package rules
 
 import (
 	"fmt"
+	"go/constant"
 	"go/token"
 	"go/types"
 	"sort"
@@ -64,12 +65,30 @@ func (c *Ctx) soleWriter(field string) *ssa.Function {
 // field (by FieldAddr stores) and whether a whole-struct store exists.
 func litFields(al *ssa.Alloc) (fields map[string][]ssa.Value, whole []ssa.Value) {
 	fields = map[string][]ssa.Value{}
+	// a store of the zero value that is the first store to its field, in the block of the (zeroed)
+	// Alloc itself, changes nothing: `T{F: nil}` is `T{}`
+	firstStore := map[string]*ssa.Store{}
+	for _, u := range *al.Referrers() {
+		if x, ok := u.(*ssa.FieldAddr); ok {
+			_, name, _ := ir.FieldAddr(x)
+			for _, uu := range *x.Referrers() {
+				if st, ok := uu.(*ssa.Store); ok && st.Addr == x && st.Block() == al.Block() {
+					if cur := firstStore[name]; cur == nil || ir.IndexIn(st) < ir.IndexIn(cur) {
+						firstStore[name] = st
+					}
+				}
+			}
+		}
+	}
 	for _, u := range *al.Referrers() {
 		switch x := u.(type) {
 		case *ssa.FieldAddr:
 			_, name, _ := ir.FieldAddr(x)
 			for _, uu := range *x.Referrers() {
 				if st, ok := uu.(*ssa.Store); ok && st.Addr == x {
+					if firstStore[name] == st && isZeroConst(st.Val) {
+						continue
+					}
 					fields[name] = append(fields[name], st.Val)
 				}
 			}
@@ -80,6 +99,25 @@ func litFields(al *ssa.Alloc) (fields map[string][]ssa.Value, whole []ssa.Value)
 		}
 	}
 	return
+}
+
+func isZeroConst(v ssa.Value) bool {
+	k, ok := v.(*ssa.Const)
+	if !ok {
+		return false
+	}
+	if k.Value == nil {
+		return true
+	}
+	switch k.Value.Kind() {
+	case constant.Bool:
+		return !constant.BoolVal(k.Value)
+	case constant.String:
+		return constant.StringVal(k.Value) == ""
+	case constant.Int, constant.Float:
+		return constant.Sign(k.Value) == 0
+	}
+	return false
 }
 
 // structFieldSource: v is a read of field f of a struct value S, either
@@ -349,7 +387,10 @@ func decl2(c *Ctx) {
 				problems = append(problems, "into is not passed through")
 			}
 		} else {
-			for _, r := range ir.Returns(fn) {
+			for _, r := range ir.ReturnPoints(fn) {
+				if fn.Signature.Results().Len() == 0 {
+					continue
+				}
 				if len(r.Results) != 1 || r.Results[0] != ssa.Value(deleg) {
 					problems = append(problems, "does not return the delegate's result")
 				}
@@ -386,7 +427,7 @@ func decl3(c *Ctx) {
 		if len(fn.Params) == 1 {
 			// Var: returns recv.Value
 			ok := true
-			for _, r := range ir.Returns(fn) {
+			for _, r := range ir.ReturnPoints(fn) {
 				s, f, isF := structFieldSource(r.Results[0])
 				if !isF || s != ssa.Value(recv) || f != "Value" {
 					ok = false
@@ -460,7 +501,7 @@ func decl3(c *Ctx) {
 				problems = append(problems, "the default handed to the constructor is not the receiver's Value field")
 			}
 		}
-		for _, r := range ir.Returns(fn) {
+		for _, r := range ir.ReturnPoints(fn) {
 			okRet := false
 			if len(r.Results) == 2 {
 				if cc, isCall := ir.Unwrap(r.Results[0]).(*ssa.Call); isCall {
@@ -697,7 +738,7 @@ func decl4names(c *Ctx, fn *ssa.Function) {
 		c.Bad(key, fn.Pos(), "names are not strings.Fields of the parameter")
 		return
 	}
-	for _, r := range ir.Returns(fn) {
+	for _, r := range ir.ReturnPoints(fn) {
 		if r.Results[0] != ssa.Value(fieldsCall) {
 			problems = append(problems, "does not return the rewritten Fields slice")
 		}
@@ -837,7 +878,7 @@ func evalPhiOnLen(phi *ssa.Phi, s ssa.Value, n int64) (string, bool) {
 	if !ok {
 		return "", false
 	}
-	if bi, isB := lc.Call.Value.(*ssa.Builtin); !isB || bi.Name() != "len" || lc.Call.Args[0] != s {
+	if bi, isB := lc.Call.Value.(*ssa.Builtin); !isB || bi.Name() != "len" || (lc.Call.Args[0] != s && ir.ExprKey(lc.Call.Args[0]) != ir.ExprKey(s)) {
 		return "", false
 	}
 	k, ok := ir.ConstInt(cond.Y)
@@ -1052,7 +1093,7 @@ func decl5validator(c *Ctx, fn *ssa.Function) {
 		}
 		sources = append(sources, source{v, at})
 	}
-	for _, r := range ir.Returns(fn) {
+	for _, r := range ir.ReturnPoints(fn) {
 		collect(r.Results[0], r.Block(), 0)
 	}
 	for _, src := range sources {
